@@ -86,7 +86,13 @@ def build_chain(ops, rec):
             del mine[:]
 
             def _t(event, namespaces, variables, updateonly=False):
-                r = inner(event, namespaces, variables, updateonly=updateonly)
+                try:
+                    r = inner(event, namespaces, variables, updateonly=updateonly)
+                except Exception:
+                    # path.py itself fails (its stack runs empty on an ill-nested stream): recorded
+                    # as a fact about this select, the model answers `err` for it
+                    rec[('raised', self.idx)] = True
+                    raise
                 if not updateonly:
                     mine.append((event, r))
                 return r
@@ -736,6 +742,8 @@ def w_content(c):
 def w_op(i, op, rec):
     n = op[0]
     if n == 'select':
+        if rec.get(('raised', i)):
+            return Atom('SELFAIL')
         return [Atom('SEL'), [w_res(jres(ev, r)) for ev, r in rec.get(i, [])]]
     if n in ('invert', 'end', 'empty', 'remove', 'unwrap', 'buffer'):
         return Atom(n)
@@ -895,7 +903,9 @@ def process(cases, res):
                 for o in c['ops']:
                     res.count('op:' + o[0])
                 res.count('chain-status:' + real['status'] + (':' + real['err'] if real['err'] else ''))
-                hits = [sum(1 for _, r in v if r is True or r) for _, v in sorted(real['rec'].items())]
+                hits = [sum(1 for _, r in v if r is True or r) for k_, v in sorted((k2, v2) for k2, v2 in real['rec'].items() if isinstance(k2, int))]
+                if any(isinstance(k2, tuple) for k2 in real['rec']):
+                    res.count('chain:path-test-raised')
                 res.count('first-select:' + ('matches' if hits and hits[0] else 'empty'))
                 res.count('chain:' + ('in' if in_theorem_class(c['ops']) else 'outside') + '-chain_wellnested')
                 if not G.admissible(c['ops']):
